@@ -10,7 +10,8 @@
        interpreter (Model/UriBuilder.v) refines the abstract builder.
 
    Definitions only. *)
-Require Import V.Base.MachineInt V.Model.UriTypes.
+Require Import V.Base.MachineInt.
+Require Import V.Model.UriTypes.
 Open Scope Z_scope.
 
 Definition lit (s : string) : str := str_of_string s.
